@@ -590,7 +590,7 @@ Definition get_operation (R : request_doc) (opname : name) : gop := get_operatio
     coerced variables. *)
 Definition coerce_request_vars (S : schema) (o : operation) (raw : list (name * Values.jval))
   : Values.res (list (name * Values.gval)) :=
-  CoerceModel.coerce_variable_values CoerceModel.all_fixed (s_inputs S) no_datetime (map fst (o_vardefs o)) raw.
+  CoerceModel.coerce_variable_values CoerceModel.all_fixed (s_inputs S) (dt_oracle S) (map fst (o_vardefs o)) raw.
 
 Definition run_request (M : mode) (S : schema) (R : request_doc) (opname : name)
            (raw : list (name * Values.jval)) (fuel : nat) (W : outcome) : run_result :=
